@@ -8,5 +8,6 @@ CONSTANTS
   MaxPert = 1
   Rounds = 20
   OwnConds <- BBoth
+  ScaleRevs <- BBoth
 INVARIANTS Emit
 CHECK_DEADLOCK FALSE
